@@ -85,7 +85,7 @@ PROFILES = {
                 sinks=['native', 'tornado', 'future', 'sync'], bursts=True),
     'C13': dict(off_grid=True, pool=['rate_limit', 'delay', 'map', 'filter', 'union', 'buffer'], need=['rate_limit', 'delay'], stalls=True,
                 modes=['async', 'async', 'threaded'], md=0.2, sinks=['sync', 'native', 'tornado', 'future'], bursts=True),
-    'C14': dict(pool=['latest', 'map', 'filter', 'union'], need=['latest'], feedback_sink=True, modes=['async', 'async', 'threaded'], md=0.4, stalls=True,
+    'C14': dict(late_subscriber=True, pool=['latest', 'map', 'filter', 'union'], need=['latest'], feedback_sink=True, modes=['async', 'async', 'threaded'], md=0.4, stalls=True,
                 sinks=['native', 'tornado', 'future', 'sync'], bursts=True),
     'C16': dict(pool=DIRECT_OPS + ['rate_limit'], modes=['loopless', 'async', 'async', 'threaded'], md=1.0, refs=True, forward=True,
                 sinks=['sync', 'native', 'tornado', 'future']),
@@ -660,6 +660,14 @@ class G:
             sc['feedback'] = feedback
         elif self.chance(0.2):
             sc['start_leaves'] = True
+        if pf.get('late_subscriber') and mode == 'async' and self.chance(0.2):
+            # a consumer that subscribes to `latest` only after the pipeline has been running for a while
+            for n in self.graph:
+                if n['op'] == 'latest':
+                    kids = [m for m in self.graph if n['id'] in m.get('up', [])]
+                    if len(kids) == 1 and kids[0]['op'] == 'sink' and kids[0].get('kind') != 'emit_into':
+                        kids[0]['attach_at'] = self.pick([0.25, 0.5, 1, 2, 5])
+                        break
         if mode == 'async' and self.chance(pf.get('emit_at_once', 0.12)):
             sc['emit_at_once'] = True       # first elements pushed before the loop has had a turn
         if mode == 'threaded' and self.chance(0.25):
